@@ -1468,15 +1468,27 @@ def check_kernel(mod_text, fn, W, opdesc, spec, seed=0, samples=200):
             continue
         # residue: look for a counterexample among limb values that satisfy the path's conditions
         found = None
-        for _ in range(samples):
+        byname = dict((cx.atoms[at]["name"], at) for at in limb_ids)
+        for it in range(samples):
             asg = {}
+            mode = it % 4            # 0: independent limbs; 1: second operand equal to the first; 2: equal but for one limb; 3: independent
             for at in limb_ids:
                 lo, hi = pc.override.get(at, (cx.atoms[at]["lo"], cx.atoms[at]["hi"]))
                 if lo > hi:
                     break
                 r = rng.random()
                 asg[at] = lo if r < 0.15 else (hi if r < 0.3 else rng.randint(lo, hi))
+                nm = cx.atoms[at]["name"]
+                if mode in (1, 2) and nm.startswith("b") and ("a" + nm[1:]) in byname and byname["a" + nm[1:]] in asg:
+                    v_ = asg[byname["a" + nm[1:]]]
+                    if lo <= v_ <= hi:
+                        asg[at] = v_
             else:
+                if mode == 2 and limb_ids:
+                    at = rng.choice(limb_ids)
+                    lo, hi = pc.override.get(at, (cx.atoms[at]["lo"], cx.atoms[at]["hi"]))
+                    if lo <= hi:
+                        asg[at] = rng.randint(lo, hi)
                 try:
                     if all(evaluate(cx, c, asg) == t for c, t in p.conds) and evaluate(cx, d, asg) % (1 << W) != 0:
                         found = asg
